@@ -209,11 +209,14 @@ func (w *vsymWorld) currentMembers() []string {
 }
 
 // pick chooses a member id for a request: one of the ids ever issued (current or removed),
-// or an id the coordinator never issued.
+// an id the coordinator never issued, or the empty id.
 func (w *vsymWorld) pick(tag string) string {
-	k := vsym_Choose(tag, len(w.ids)+1)
+	k := vsym_Choose(tag, len(w.ids)+2)
 	if k == len(w.ids) {
 		return "never-issued"
+	}
+	if k == len(w.ids)+1 {
+		return "" // the "no member" id of standalone clients
 	}
 	return w.ids[k]
 }
